@@ -68,7 +68,7 @@ async fn get_child_result(
         info!(
             "Individual {}: non-empty stderr: {}",
             individual_id,
-            String::from_utf8(output.stderr.clone()).unwrap()
+            String::from_utf8_lossy(&output.stderr)
         );
     }
 
